@@ -24,6 +24,7 @@ of coefficient `t` of the limb column `c` at radix `2^b` (last limb weight 1), s
        `normalize_cross_value`, not proved there either; the executable model is fully tied). -/
 -/
 import Poulpy.Lemmas.CoreEncLwe
+import Poulpy.Lemmas.CoreEncHead
 
 namespace C01
 open NormL CoreEnc
@@ -208,7 +209,7 @@ example : Core.glweDecrypt 64 { base2k := 3, k := 6, n := 1, cols := [[[1], [3]]
 /-- **encrypt-then-decrypt, secret key, same radix**: the decryption of a fresh ciphertext
 represents `message + e·2^-((limb+1)b)` within one unit of the plaintext's last limb (exactly when
 the plaintext has at least as many limbs as the ciphertext). -/
-theorem glwe_encrypt_decrypt_sk {bits b n size kxe k : Nat} {H E M : Int}
+theorem glwe_encrypt_decrypt_sk_of_headroom {bits b n size kxe k : Nat} {H E M : Int}
     (hbits : bits = 64 ∨ bits = 128) (hr : HeadRoom bits b 0 H) (hb1 : 1 ≤ b) (hb : b ≤ 61)
     (hk : 1 ≤ kxe) (hlimb : errLimb kxe b < size)
     (masks : List Col) (sk : List Poly) (m : Option Col) (e : Poly)
@@ -236,7 +237,7 @@ theorem glwe_encrypt_decrypt_sk {bits b n size kxe k : Nat} {H E M : Int}
   rw [hlenp] at this
   exact torusNear_of_eq this K hK
 
-/-- non-vacuity of `glwe_encrypt_decrypt_sk`: the instance of the first example, decrypted into one limb -/
+/-- non-vacuity of `glwe_encrypt_decrypt_sk_of_headroom`: the instance of the first example, decrypted into one limb -/
 example : ∃ ct pt, Core.glweEncryptSk 128 3 6 2 2 5 [[[1, -2], [3, 0]]] (some [[1, 2]]) 3 [[1, -1]] [1, -1] = some ct ∧
     Core.glweDecrypt 128 ct [[1, -1]] 3 1 = some pt ∧
     ∀ t, t < 2 → TorusNear (Core.valCoeff 3 pt t) (3 * 1)
@@ -244,7 +245,7 @@ example : ∃ ct pt, Core.glweEncryptSk 128 3 6 2 2 5 [[[1, -2], [3, 0]]] (some 
   have hr : HeadRoom 128 3 0 (2 ^ 62) := ⟨by norm_num, by norm_num, by norm_num, by norm_num, by norm_num⟩
   have henc : Core.glweEncryptSk 128 3 6 2 2 5 [[[1, -2], [3, 0]]] (some [[1, 2]]) 3 [[1, -1]] [1, -1]
       = some { base2k := 3, k := 6, n := 2, cols := [[[2, -3], [-2, 2]], [[1, -2], [3, 0]]] } := by rfl
-  obtain ⟨ct, pt, h1, h2, _, _, h5⟩ := glwe_encrypt_decrypt_sk (bits := 128) (b := 3) (n := 2) (size := 2) (kxe := 5) (k := 6)
+  obtain ⟨ct, pt, h1, h2, _, _, h5⟩ := glwe_encrypt_decrypt_sk_of_headroom (bits := 128) (b := 3) (n := 2) (size := 2) (kxe := 5) (k := 6)
     (H := 2 ^ 62) (E := 1) (M := 2) (Or.inr rfl) hr (by norm_num) (by norm_num) (by norm_num) (by decide)
     [[[1, -2], [3, 0]]] [[1, -1]] (some [[1, 2]]) [1, -1] rfl
     (by intro a ha; simp at ha; subst ha; exact ⟨rfl, by intro l hl; simp at hl; rcases hl with rfl | rfl <;> rfl⟩)
@@ -276,6 +277,68 @@ example : ∃ ct pt, Core.glweEncryptSk 128 3 6 2 2 5 [[[1, -2], [3, 0]]] (some 
       simp at hl
       rcases hl with rfl | rfl <;> simp at hx <;> rcases hx with rfl | rfl <;> norm_num)
   exact ⟨ct, pt, h1, h2, h5⟩
+
+/-- **encrypt-then-decrypt, secret key, same radix — input-shape hypotheses only.**  For masks with
+`‖aᵢ‖∞ ≤ A` (fresh masks: `A = 2^(b−1)`), secrets with `2^(b−1) + (Σ‖sᵢ‖₁)·A ≤ H` (the head-room of the
+normalisation, `H = 2^62` for `b ≤ 61`), messages and errors within `rank·2^(b−1) + E + M ≤ 2^62`: the
+decryption of the fresh ciphertext into `ptSize` limbs represents `message + e·2^-((limb+1)b)` within one
+unit of the plaintext's last limb.  No hypothesis about intermediate values is left: the head-room of
+the products and of the exact phase is derived from the norm inequality. -/
+theorem glwe_encrypt_decrypt_sk {bits b n size kxe k : Nat} {H E M A : Int}
+    (hbits : bits = 64 ∨ bits = 128) (hr : HeadRoom bits b 0 H) (hb1 : 1 ≤ b) (hb : b ≤ 61)
+    (hk : 1 ≤ kxe) (hlimb : errLimb kxe b < size)
+    (masks : List Col) (sk : List Poly) (m : Option Col) (e : Poly)
+    (hlen : masks.length = sk.length) (hmasks : ∀ a ∈ masks, a.length = size ∧ WF n a)
+    (hA0 : 0 ≤ A) (hA : ∀ a ∈ masks, Bounded A a) (hnorm : 2 ^ (b - 1) + sumNorm1 sk * A ≤ H)
+    (ptB : Nat) (hradix : m.isSome → ptB = b)
+    (hm : ∀ p, m = some p → WF n p ∧ CoefBounded n M p) (hM0 : 0 ≤ M)
+    (he : e.length = n) (hE0 : 0 ≤ E) (heB : ∀ x ∈ e, |x| ≤ E)
+    (hsum : (masks.length : Int) * 2 ^ (b - 1) + E + M ≤ 2 ^ 62)
+    (ptSize : Nat) :
+    ∃ ct pt, Core.glweEncryptSk bits b k n size kxe masks m ptB sk e = some ct ∧ Core.glweDecrypt bits ct sk b ptSize = some pt ∧
+      pt.length = ptSize ∧ Bounded (2 ^ (b - 1)) pt ∧
+      ∀ t, t < n → TorusNear (Core.valCoeff b pt t) (b * ptSize)
+        (msgCoeff b n size m t + e.getD t 0 * 2 ^ (b * (size - 1 - errLimb kxe b))) (b * size) := by
+  have hP : (0 : Int) < 2 ^ (b - 1) := two_pow_pos _
+  have hs1 : ∀ s ∈ sk, norm1 s * A ≤ H := by
+    intro s hs
+    have hle : norm1 s ≤ sumNorm1 sk := by
+      unfold sumNorm1
+      have hnn : ∀ x ∈ sk.map norm1, 0 ≤ x := by
+        intro x hx; simp only [List.mem_map] at hx; obtain ⟨q, _, rfl⟩ := hx; exact norm1_nonneg q
+      exact List.single_le_sum hnn _ (List.mem_map_of_mem hs)
+    nlinarith
+  have hprod := prodBounded_of_norm masks sk hA hs1
+  refine glwe_encrypt_decrypt_sk_of_headroom (k := k) hbits hr hb1 hb hk hlimb masks sk m e hlen hmasks hprod ptB hradix hm hM0 he hE0 heB hsum ptSize ?_
+  intro ct hct
+  obtain ⟨body, h1, _, _, hbB, _⟩ := glwe_encrypt_sk_phase (k := k) hbits hr hb1 hb hk hlimb masks sk m e hlen hmasks hprod ptB hradix hm hM0 he hE0 heB hsum
+  rw [h1] at hct
+  cases hct
+  rw [phaseBig_eq_fold sk b k n body masks hlen]
+  intro l hl x hx
+  exact le_trans (phaseFold_bounded hA0 sk masks body _ hbB hA l hl x hx) hnorm
+
+example : ∃ ct pt, Core.glweEncryptSk 128 3 6 2 2 5 [[[1, -2], [3, 0]]] (some [[1, 2]]) 3 [[1, -1]] [1, -1] = some ct ∧
+    Core.glweDecrypt 128 ct [[1, -1]] 3 1 = some pt ∧ pt.length = 1 := by
+  have hr : HeadRoom 128 3 0 (2 ^ 62) := ⟨by norm_num, by norm_num, by norm_num, by norm_num, by norm_num⟩
+  obtain ⟨ct, pt, h1, h2, h3, _⟩ := glwe_encrypt_decrypt_sk (bits := 128) (b := 3) (n := 2) (size := 2) (kxe := 5) (k := 6)
+    (H := 2 ^ 62) (E := 1) (M := 2) (A := 3) (Or.inr rfl) hr (by norm_num) (by norm_num) (by norm_num) (by decide)
+    [[[1, -2], [3, 0]]] [[1, -1]] (some [[1, 2]]) [1, -1] rfl
+    (by intro a ha; simp at ha; subst ha; exact ⟨rfl, by intro l hl; simp at hl; rcases hl with rfl | rfl <;> rfl⟩)
+    (by norm_num)
+    (by intro a ha l hl x hx; simp at ha; subst ha; simp at hl; rcases hl with rfl | rfl <;> simp at hx <;> rcases hx with rfl | rfl <;> norm_num)
+    (by simp [sumNorm1, norm1])
+    3 (fun _ => rfl)
+    (by
+      intro p hp; simp at hp; subst hp
+      refine ⟨by intro l hl; simp at hl; subst hl; rfl, ?_⟩
+      intro t _ v hv
+      simp [coefAt] at hv
+      subst hv
+      rcases t with _ | _ | t <;> simp)
+    (by norm_num) rfl (by norm_num)
+    (by intro x hx; simp at hx; rcases hx with rfl | rfl <;> norm_num) (by norm_num) 1
+  exact ⟨ct, pt, h1, h2, h3⟩
 
 /-! ### LWE -/
 
